@@ -5,3 +5,4 @@ import NaunetModel.Window
 import NaunetModel.CExpr
 import NaunetModel.RateExpr
 import NaunetModel.Generated.Tables
+import NaunetModel.Codec
